@@ -251,6 +251,61 @@ func c14(c *Ctx) {
 		lits := stringLiteralsOf(gpk, "generateStructTypeAndMethods")
 		r.Check(ok && contains(lits, "flags") && contains(lits, "bitflags") && contains(lits, "FlagIndex"), "R14.F", "flagindex:position-of-flags", c.pos(gs.Pos()), "FlagIndex() returns the index of the parameter named flags of type bitflags")
 	}
+	// ---- R14.B: every flag bit 0..31 is accepted by the parser ------------------------------------------------
+	r.Rule("R14.B", "the parser accepts conditional parameters on every bit 0..31 of the flags word: no comparison of the parsed bit number sends one of them to an error return", 1)
+	if pp := c.fn("R14.B", load.ParsePkg, "", "parseParam"); pp != nil {
+		trb := an.NewTracer()
+		var bit ssa.Value
+		for _, cs := range an.CallsNamed(pp, "strconv.Atoi") {
+			if call, ok := cs.Instr.(*ssa.Call); ok && call.Referrers() != nil {
+				for _, rf := range *call.Referrers() {
+					if ex, ok := rf.(*ssa.Extract); ok && ex.Index == 0 {
+						bit = ex
+					}
+				}
+			}
+		}
+		if bit == nil {
+			r.Undecide("R14.B", "flag-bits:0..31", c.pos(pp.Pos()), "the conversion of the bit number (strconv.Atoi) was not found in parseParam")
+		} else {
+			var bad []string
+			nTests := 0
+			for _, i := range an.Ifs(pp) {
+				if o := trb.OriginString(i.Cond); !an.Mentions(i.Cond, bit) && !strings.Contains(o, "tlparser.Parameter.BitToTrigger") && !strings.Contains(o, "strconv.Atoi#0") {
+					continue
+				}
+				for b := int64(0); b < 32; b++ {
+					res, ok := an.EvalCond(i.Cond, func(v ssa.Value) (int64, bool) {
+						if v == bit {
+							return b, true
+						}
+						if ld, isLd := v.(*ssa.UnOp); isLd {
+							if o := trb.OriginString(ld); strings.HasSuffix(o, "tlparser.Parameter.BitToTrigger") || o == "call:strconv.Atoi#0" {
+								return b, true
+							}
+						}
+						return 0, false
+					})
+					if !ok {
+						continue
+					}
+					nTests++
+					succ := 1
+					if res {
+						succ = 0
+					}
+					tb := i.Block().Succs[succ]
+					if ret, isRet := tb.Instrs[len(tb.Instrs)-1].(*ssa.Return); isRet && len(ret.Results) > 0 {
+						if an.NonNilError(ret.Results[len(ret.Results)-1], tb) && len(bad) < 4 {
+							bad = append(bad, sprintf("bit %d is refused at %s", b, c.pos(i.Cond.Pos())))
+						}
+					}
+				}
+			}
+			r.Check(len(bad) == 0, "R14.B", "flag-bits:0..31", c.pos(pp.Pos()), sprintf("%d evaluations of range tests on the bit number: %s", nTests, strings.Join(bad, "; ")))
+		}
+	}
+
 	// ---- R14.W: generated files replace what was there ---------------------------------------------------
 	r.Rule("R14.W", "every file the generator writes is written whole (WriteFile / Create / OpenFile with O_TRUNC): regenerating over previous output leaves no tail of the old file behind, so the output does not depend on what the directory held", 1)
 	{
